@@ -103,6 +103,17 @@ func runCheck(opts checkOpts) int {
 			sel = append(sel, o)
 		}
 	}
+	if opts.tier == "thorough" {
+		// the axiom set alone must not be refutable (a contradictory prelude would prove everything)
+		for _, native := range []bool{false, true} {
+			name := "prelude/cover/consistency"
+			if native {
+				name += "-native-strings"
+			}
+			sel = append(sel, &Obligation{Name: name, Fn: "prelude", Kind: "cover", Expect: "sat", Goal: "prelude axioms satisfiable",
+				Script: p.prelude(native) + "(check-sat)\n"})
+		}
+	}
 	work := filepath.Join(verifDir, "work", prop+os.Getenv("VERIF_WORK_SUFFIX"))
 	_ = os.RemoveAll(work)
 	_ = os.MkdirAll(work, 0o755)
@@ -237,7 +248,11 @@ func solveAllTier(sel []*Obligation, opts checkOpts, work string) {
 		}
 	}
 	done := make(chan struct{})
-	go func() { solveAll(covers, 2, false, work); close(done) }()
+	ct := 2
+	if opts.tier == "thorough" {
+		ct = 20
+	}
+	go func() { solveAll(covers, ct, false, work); close(done) }()
 	solveAll(rest, opts.timeoutS, opts.tier == "thorough", work)
 	<-done
 }
